@@ -22,6 +22,8 @@ THEOREMS = [
     "Ts.ManifestOps.C07_saved_manifests_roundtrip",
     # whole-job data plane (TsModel/World.lean; tied by C01's world_tie suite)
     "Ts.World.C07_world_replicated_everywhere",
+    "Ts.Glob.glob_subtree",
+    "Ts.Glob.glob_subtree_sibling",
 ]
 BUDGET_S = (100, 840)
 RULE = ("synth: for (W, W') in 1..6 x 1..6, random per-rank state trees (depth <= 4; dict / OrderedDict / list; keys with "
